@@ -349,6 +349,49 @@ theorem output_dict_entries_sound (net : Net W) (hnet : WFNet net) (s : Nat) (hs
   obtain ⟨a, b, c⟩ := forward_out_settled net t0 cut net.n (St.init s) [] (fun p hp => by cases hp) (u, y) h
   exact ⟨settled_label_isDist net hnet s _ hinv u y a b, c⟩
 
+/-! ### the network as `addNode` / `addEdge` build it -/
+
+/-- For a network built by successive `addEdge(edge, source, target)` calls (edge ids unique): `EDGES` holds the edges in
+insertion order; looking up the ids of `NEXT_EDGES[u]` in `EDGES` yields `pyNext` — each edge that may be left from `u`,
+in insertion order, a two-way edge from `u` to `u` twice; and the relaxation loop of one iteration of
+`run_routing_forward` over that list (after `pere.visite = True`) has exactly the effect of the loop over the model's
+`nextEdges net u`, in which every edge occurs once. So every theorem about the model's forward pass is about the
+adjacency lists that `addEdge` actually fills. -/
+theorem next_edges_as_built (n : Nat) (es : List (Edge W × P × P)) (hu : UniqueIds ⟨n, es.map (·.1)⟩) (u : Nat) (du : W)
+    (st : St W) (hv : st.vis u = true) :
+    (build NetObj.empty es).edges = es.map (·.1) ∧
+    ((build NetObj.empty es).next u).filterMap (findEdge ⟨n, es.map (·.1)⟩) = pyNext ⟨n, es.map (·.1)⟩ u ∧
+    (pyNext ⟨n, es.map (·.1)⟩ u).foldl (relaxOne u du) st = (nextEdges ⟨n, es.map (·.1)⟩ u).foldl (relaxOne u du) st := by
+  obtain ⟨h1, h2⟩ := build_spec es (NetObj.empty : NetObj W P)
+  refine ⟨by simpa [NetObj.empty] using h1, ?_, pyNext_fold _ u du st hv⟩
+  rw [h2 u]
+  simp only [NetObj.empty, List.nil_append]
+  exact lookup_next ⟨n, es.map (·.1)⟩ hu u (es.map (·.1)) (fun e he => he)
+
+omit [AddCommMonoid W] [LinearOrder W] [IsOrderedAddMonoid W] in
+/-- the position of a node is the coordinate of its FIRST registration: later `addNode` / `addEdge` calls that mention
+the same id with other `Node` objects (other coordinates) do not change it, and `addEdge` registers both its ends. This
+is the position `run_routing_backward` starts the geometry with (`Obs(node.coord)`). -/
+theorem first_registration_wins (nb : NetObj W P) (es : List (Edge W × P × P)) (e : Edge W) (sc tc : P) (v : Nat) (p : P) :
+    (posOf nb v = some p → posOf (build nb es) v = some p) ∧
+    (∃ q, posOf (addEdge nb e sc tc) e.src = some q) ∧ (∃ q, posOf (addEdge nb e sc tc) e.tgt = some q) := by
+  refine ⟨build_posOf es nb v p, ?_, ?_⟩
+  · obtain ⟨q, hq⟩ := addNode_registers nb e.src sc
+    have h2 := addNode_posOf (addNode nb e.src sc) e.tgt tc e.src q hq
+    refine ⟨q, ?_⟩
+    unfold addEdge
+    simp only []
+    generalize addNode (addNode nb e.src sc) e.tgt tc = nb' at h2 ⊢
+    unfold posOf at h2 ⊢
+    by_cases ha : 0 ≤ e.ori <;> by_cases hb : e.ori ≤ 0 <;> simp [ha, hb, h2]
+  · obtain ⟨q, h2⟩ := addNode_registers (addNode nb e.src sc) e.tgt tc
+    refine ⟨q, ?_⟩
+    unfold addEdge
+    simp only []
+    generalize addNode (addNode nb e.src sc) e.tgt tc = nb' at h2 ⊢
+    unfold posOf at h2 ⊢
+    by_cases ha : 0 ≤ e.ori <;> by_cases hb : e.ori ≤ 0 <;> simp [ha, hb, h2]
+
 /-! ### the hypotheses are satisfiable by a non-trivial network, and the model computes on it -/
 
 /-- 0 –(w 0, two-way)– 1 ; edge 1 stored 2→1 but only travelled 1→2 (orientation −1) with a bent polyline;
@@ -444,5 +487,14 @@ example : shortestPath demoCut demoCutGeo 0 2 (some 0) = .path [0, 2] [0, 7, 2] 
 example : shortestDistance demoCut 0 2 (some 0) = some 5 := by decide +kernel
 example : shortestPath demoCut demoCutGeo 0 2 none = .path [0, 1, 2] [0, 1, 2] := by decide +kernel
 example : shortestPath demoCut demoCutGeo 0 2 (some 1) = .path [0, 1, 2] [0, 1, 2] := by decide +kernel
+
+/-- `demo4` built by four `addEdge` calls; node 1 is registered first with the coordinate `ob 1`, the later registrations
+with `ob 99` are ignored; `NEXT_EDGES[1]` = edges 0 (two-way), 1 (stored 2→1, travelled 1→2), 2, 3 -/
+def demoBuild : NetObj Int Seq.Obs :=
+  build NetObj.empty [(⟨0, 0, 1, 0, 0⟩, ob 0, ob 1), (⟨1, 2, 1, 1, -1⟩, ob 2, ob 99), (⟨2, 1, 2, 5, 1⟩, ob 99, ob 98), (⟨3, 1, 2, 5, 1⟩, ob 1, ob 2)]
+example : demoBuild.edges.map (·.id) = demo4.edges.map (·.id) ∧ demoBuild.next 1 = [0, 1, 2, 3] ∧ demoBuild.next 2 = [] ∧
+    posOf demoBuild 1 = some (ob 1) ∧ posOf demoBuild 2 = some (ob 2) := by decide +kernel
+/-- a two-way edge from a node to itself is entered twice in `NEXT_EDGES` -/
+example : (build (NetObj.empty : NetObj Int Nat) [(⟨7, 0, 0, 1, 0⟩, 5, 5)]).next 0 = [7, 7] := by decide +kernel
 
 end TV.C07
